@@ -27,11 +27,155 @@ package main
 // `bodyAccepted iterBody = true` fails in Lean.
 
 import (
+	"bytes"
+	"fmt"
 	"go/ast"
+	"go/printer"
 	"go/token"
+	"go/types"
+	"os"
 	"strconv"
 	"strings"
+
+	"golang.org/x/tools/go/packages"
 )
+
+// instloopW: a package being read, with the translator's error list.
+type instloopW struct {
+	t    *tr
+	pkg  *packages.Package
+	recv string
+}
+
+func (x *instloopW) fail(n ast.Node, format string, a ...any) string {
+	msg := fmt.Sprintf("%s: unsupported (instloop area): %s", x.pkg.Fset.Position(n.Pos()), fmt.Sprintf(format, a...))
+	x.t.errs = append(x.t.errs, msg)
+	return "(UNSUPPORTED)"
+}
+
+func (x *instloopW) src(n ast.Node) string {
+	var b bytes.Buffer
+	_ = printer.Fprint(&b, x.pkg.Fset, n)
+	return strings.Join(strings.Fields(b.String()), " ")
+}
+
+// isCtxDone: `<-ctx.Done()`
+func (x *instloopW) isCtxDone(e ast.Expr) bool {
+	u, ok := e.(*ast.UnaryExpr)
+	if !ok || u.Op != token.ARROW {
+		return false
+	}
+	return x.src(u.X) == "ctx.Done()"
+}
+
+// instloopLoad loads several packages of the repo in ONE go/packages call (the shared dependencies are type-checked
+// once).
+func instloopLoad(paths ...string) map[string]*packages.Package {
+	cfg := &packages.Config{Mode: packages.NeedName | packages.NeedSyntax | packages.NeedTypes | packages.NeedTypesInfo |
+		packages.NeedFiles | packages.NeedImports | packages.NeedDeps, Dir: repo, BuildFlags: []string{"-tags=verif"}}
+	pkgs, err := packages.Load(cfg, paths...)
+	if err != nil {
+		fmt.Fprintln(os.Stderr, "load:", err)
+		os.Exit(1)
+	}
+	out := map[string]*packages.Package{}
+	for _, p := range pkgs {
+		if len(p.Errors) > 0 {
+			fmt.Fprintln(os.Stderr, "load errors:", p.Errors)
+			os.Exit(1)
+		}
+		out[p.PkgPath] = p
+	}
+	for _, want := range paths {
+		if out[want] == nil {
+			fmt.Fprintln(os.Stderr, "load: package not found:", want)
+			os.Exit(1)
+		}
+	}
+	return out
+}
+
+func instloopFindMethod(p *packages.Package, recvType, name string) *ast.FuncDecl {
+	for _, f := range p.Syntax {
+		for _, d := range f.Decls {
+			fd, ok := d.(*ast.FuncDecl)
+			if !ok || fd.Recv == nil || fd.Name.Name != name || len(fd.Recv.List) != 1 {
+				continue
+			}
+			ty := fd.Recv.List[0].Type
+			if st, ok := ty.(*ast.StarExpr); ok {
+				ty = st.X
+			}
+			if id, ok := ty.(*ast.Ident); ok && id.Name == recvType {
+				return fd
+			}
+		}
+	}
+	return nil
+}
+
+// instloopAccesses: the operations of a method on the shared state of its receiver, in source order: calls of methods
+// of an atomic type (package path ending in "atomic") on a receiver field -> "<field>.<Method>", plain assignments to a
+// receiver field -> "<field>.write". Function literals are not entered (`sync.Once.Do(func() {…})` is synchronised by
+// the Once). Renaming locals or the receiver, and reordering statements that do not touch shared state, leave the
+// list unchanged; one more / one fewer / another operation on the shared state changes it.
+func instloopAccesses(p *packages.Package, fd *ast.FuncDecl) []string {
+	out := []string{}
+	if fd.Recv == nil || len(fd.Recv.List) != 1 || len(fd.Recv.List[0].Names) != 1 {
+		return []string{"?receiver"}
+	}
+	recvObj := p.TypesInfo.Defs[fd.Recv.List[0].Names[0]]
+	isRecvField := func(e ast.Expr) (string, bool) {
+		se, ok := e.(*ast.SelectorExpr)
+		if !ok {
+			return "", false
+		}
+		id, ok := se.X.(*ast.Ident)
+		if !ok || recvObj == nil || p.TypesInfo.Uses[id] != recvObj {
+			return "", false
+		}
+		return se.Sel.Name, true
+	}
+	isAtomic := func(e ast.Expr) bool {
+		tv, ok := p.TypesInfo.Types[e]
+		if !ok {
+			return false
+		}
+		ty := tv.Type
+		if pt, ok := ty.(*types.Pointer); ok {
+			ty = pt.Elem()
+		}
+		if nt, ok := ty.(*types.Named); ok && nt.Obj().Pkg() != nil {
+			pp := nt.Obj().Pkg().Path()
+			return pp == "sync/atomic" || strings.HasSuffix(pp, "/atomic")
+		}
+		return false
+	}
+	ast.Inspect(fd.Body, func(n ast.Node) bool {
+		switch v := n.(type) {
+		case *ast.FuncLit:
+			return false
+		case *ast.CallExpr:
+			if se, ok := v.Fun.(*ast.SelectorExpr); ok {
+				if f, ok := isRecvField(se.X); ok && isAtomic(se.X) {
+					out = append(out, f+"."+se.Sel.Name)
+				}
+			}
+		case *ast.AssignStmt:
+			for _, l := range v.Lhs {
+				if f, ok := isRecvField(l); ok {
+					out = append(out, f+".write")
+				}
+			}
+		case *ast.IncDecStmt:
+			if f, ok := isRecvField(v.X); ok {
+				out = append(out, f+".write")
+			}
+		}
+		return true
+	})
+	return out
+}
 
 func init() {
 	areas["instloop"] = area{
@@ -43,15 +187,15 @@ func init() {
 	}
 }
 
-type ilx struct {
-	*wtr
+type instloopX struct {
+	*instloopW
 	recv string // receiver name of (*instance).Run
 }
 
-func ilStr(s string) string { return strconv.Quote(s) }
+func instloopStr(s string) string { return strconv.Quote(s) }
 
 // isLogStmt: `i.log.X(...)` or `if tag.Debug { i.log.X(...) ... }`
-func (x *ilx) isLogStmt(s ast.Stmt) bool {
+func (x *instloopX) isLogStmt(s ast.Stmt) bool {
 	switch v := s.(type) {
 	case *ast.ExprStmt:
 		call, ok := v.X.(*ast.CallExpr)
@@ -73,7 +217,7 @@ func (x *ilx) isLogStmt(s ast.Stmt) bool {
 	return false
 }
 
-func (x *ilx) dropLogs(stmts []ast.Stmt) []ast.Stmt {
+func (x *instloopX) dropLogs(stmts []ast.Stmt) []ast.Stmt {
 	var out []ast.Stmt
 	for _, s := range stmts {
 		if !x.isLogStmt(s) {
@@ -84,7 +228,7 @@ func (x *ilx) dropLogs(stmts []ast.Stmt) []ast.Stmt {
 }
 
 // isReturnOf: block (logs dropped) is exactly `return <pred>`
-func (x *ilx) isReturnOf(b *ast.BlockStmt, pred func(string) bool) bool {
+func (x *instloopX) isReturnOf(b *ast.BlockStmt, pred func(string) bool) bool {
 	l := x.dropLogs(b.List)
 	if len(l) != 1 {
 		return false
@@ -94,9 +238,9 @@ func (x *ilx) isReturnOf(b *ast.BlockStmt, pred func(string) bool) bool {
 }
 
 // body translates the statements of the iteration function into Instr terms.
-func (x *ilx) body(stmts []ast.Stmt, nested bool) []string {
+func (x *instloopX) body(stmts []ast.Stmt, nested bool) []string {
 	var out []string
-	other := func(n ast.Node) { out = append(out, ".other "+ilStr(x.src(n))) }
+	other := func(n ast.Node) { out = append(out, ".other "+instloopStr(x.src(n))) }
 	stmts = x.dropLogs(stmts)
 	for k := 0; k < len(stmts); k++ {
 		s := stmts[k]
@@ -107,7 +251,7 @@ func (x *ilx) body(stmts []ast.Stmt, nested bool) []string {
 				okName := x.src(v.Lhs[1])
 				if ifs, isIf := stmts[k+1].(*ast.IfStmt); isIf && ifs.Init == nil && ifs.Else == nil && x.src(ifs.Cond) == "!"+okName &&
 					x.isReturnOf(ifs.Body, func(r string) bool { return r != "nil" }) {
-					out = append(out, ".acquireOrReturn "+ilStr(x.src(v.Lhs[0])))
+					out = append(out, ".acquireOrReturn "+instloopStr(x.src(v.Lhs[0])))
 					k++
 					continue
 				}
@@ -115,7 +259,7 @@ func (x *ilx) body(stmts []ast.Stmt, nested bool) []string {
 			other(s)
 		case *ast.DeferStmt:
 			if x.src(v.Call.Fun) == x.recv+".provider.Release" && len(v.Call.Args) == 1 {
-				out = append(out, ".deferRelease "+ilStr(x.src(v.Call.Args[0])))
+				out = append(out, ".deferRelease "+instloopStr(x.src(v.Call.Args[0])))
 				continue
 			}
 			other(s)
@@ -128,15 +272,15 @@ func (x *ilx) body(stmts []ast.Stmt, nested bool) []string {
 			fun := x.src(call.Fun)
 			switch {
 			case fun == x.recv+".provider.Release" && len(call.Args) == 1:
-				out = append(out, ".release "+ilStr(x.src(call.Args[0])))
+				out = append(out, ".release "+instloopStr(x.src(call.Args[0])))
 			case fun == x.recv+".gun.Shoot" && len(call.Args) == 1:
-				out = append(out, ".shoot "+ilStr(x.src(call.Args[0])))
+				out = append(out, ".shoot "+instloopStr(x.src(call.Args[0])))
 			case x.src(call) == x.recv+".aggregator.Report(netsample.DiscardedShootSample())":
 				out = append(out, ".reportDiscard")
 			case strings.HasPrefix(fun, x.recv+".metrics.") && strings.HasSuffix(fun, ".Add") && len(call.Args) == 1:
 				name := strings.TrimSuffix(strings.TrimPrefix(fun, x.recv+".metrics."), ".Add")
 				if tv, ok := x.pkg.TypesInfo.Types[call.Args[0]]; ok && tv.Value != nil && !strings.Contains(name, ".") {
-					out = append(out, ".metricAdd "+ilStr(name)+" ("+tv.Value.ExactString()+")")
+					out = append(out, ".metricAdd "+instloopStr(name)+" ("+tv.Value.ExactString()+")")
 				} else {
 					other(s)
 				}
@@ -198,8 +342,8 @@ func (x *ilx) body(stmts []ast.Stmt, nested bool) []string {
 	return out
 }
 
-// ilIterFunc recognises `err := func() error { BODY }()` and returns BODY.
-func ilIterFunc(s ast.Stmt) (*ast.BlockStmt, string, bool) {
+// instloopIterFunc recognises `err := func() error { BODY }()` and returns BODY.
+func instloopIterFunc(s ast.Stmt) (*ast.BlockStmt, string, bool) {
 	as, ok := s.(*ast.AssignStmt)
 	if !ok || len(as.Lhs) != 1 || len(as.Rhs) != 1 || as.Tok != token.DEFINE {
 		return nil, "", false
@@ -219,7 +363,7 @@ func ilIterFunc(s ast.Stmt) (*ast.BlockStmt, string, bool) {
 	return fl.Body, id.Name, true
 }
 
-func ilList(items []string, ind string) string {
+func instloopList(items []string, ind string) string {
 	if len(items) == 0 {
 		return "[]"
 	}
@@ -230,11 +374,11 @@ func instloopExtra(t *tr) string {
 	var b strings.Builder
 	b.WriteString("open Pandora.Model.C03Loop\n\n")
 	en := t.pkg
-	x := &ilx{wtr: &wtr{t: t, pkg: en}, recv: "i"}
+	x := &instloopX{instloopW: &instloopW{t: t, pkg: en}, recv: "i"}
 
 	// ---- (*instance).Run
 	var iterBody *ast.BlockStmt
-	if fd := waiterFindMethod(en, "instance", "Run"); fd != nil && len(fd.Recv.List[0].Names) == 1 {
+	if fd := instloopFindMethod(en, "instance", "Run"); fd != nil && len(fd.Recv.List[0].Names) == 1 {
 		x.recv = fd.Recv.List[0].Names[0].Name
 		var skel []string
 		for _, s := range x.dropLogs(fd.Body.List) {
@@ -245,31 +389,31 @@ func instloopExtra(t *tr) string {
 					for _, d := range x.dropLogs(fl.Body.List) {
 						inner = append(inner, x.src(d))
 					}
-					skel = append(skel, ilStr("defer func() { "+strings.Join(inner, "; ")+" }()"))
+					skel = append(skel, instloopStr("defer func() { "+strings.Join(inner, "; ")+" }()"))
 					continue
 				}
-				skel = append(skel, ilStr(x.src(s)))
+				skel = append(skel, instloopStr(x.src(s)))
 			case *ast.ForStmt:
 				if v.Init == nil && v.Post == nil && v.Cond != nil {
 					l := x.dropLogs(v.Body.List)
 					if len(l) == 2 {
-						if body, errName, ok := ilIterFunc(l[0]); ok && iterBody == nil {
+						if body, errName, ok := instloopIterFunc(l[0]); ok && iterBody == nil {
 							iterBody = body
-							skel = append(skel, ilStr("for "+x.src(v.Cond)+" { "+errName+" := <iteration>(); "+x.src(l[1])+" }"))
+							skel = append(skel, instloopStr("for "+x.src(v.Cond)+" { "+errName+" := <iteration>(); "+x.src(l[1])+" }"))
 							continue
 						}
 					}
 				}
-				skel = append(skel, ilStr(x.src(s)))
+				skel = append(skel, instloopStr(x.src(s)))
 			default:
-				skel = append(skel, ilStr(x.src(s)))
+				skel = append(skel, instloopStr(x.src(s)))
 			}
 		}
 		b.WriteString("/-- regenerated from `core/engine/instance.go` `(*instance).Run`: its top-level statements (logging dropped; the\niteration function abbreviated) -/\n")
-		b.WriteString("def runSkeleton : List String := " + ilList(skel, "  ") + "\n\n")
+		b.WriteString("def runSkeleton : List String := " + instloopList(skel, "  ") + "\n\n")
 		if iterBody != nil {
 			b.WriteString("/-- regenerated from `(*instance).Run`: the body of the iteration function, in source order -/\n")
-			b.WriteString("def iterBody : List Instr := " + ilList(x.body(iterBody.List, false), "  ") + "\n\n")
+			b.WriteString("def iterBody : List Instr := " + instloopList(x.body(iterBody.List, false), "  ") + "\n\n")
 		} else {
 			t.errs = append(t.errs, "(*instance).Run: loop `for COND { err := func() error {...}(); if err != nil { return err } }` not found")
 			b.WriteString("def iterBody : List Instr := [.other \"iteration function not found\"]\n\n")
@@ -310,7 +454,7 @@ func instloopExtra(t *tr) string {
 	}
 	// the waiter of Run is built on that schedule
 	waiterOn := ""
-	if fd := waiterFindMethod(en, "instance", "Run"); fd != nil {
+	if fd := instloopFindMethod(en, "instance", "Run"); fd != nil {
 		ast.Inspect(fd.Body, func(n ast.Node) bool {
 			if as, ok := n.(*ast.AssignStmt); ok && len(as.Lhs) == 1 && len(as.Rhs) == 1 && x.src(as.Lhs[0]) == "waiter" {
 				waiterOn = x.src(as.Rhs[0])
@@ -319,10 +463,10 @@ func instloopExtra(t *tr) string {
 		})
 	}
 	b.WriteString("/-- regenerated from `(*instance).Run`: what `waiter` is -/\n")
-	b.WriteString("def runWaiter : String := " + ilStr(waiterOn) + "\n\n")
+	b.WriteString("def runWaiter : String := " + instloopStr(waiterOn) + "\n\n")
 
 	// ---- buildNewInstanceSchedule
-	if fd := waiterFindMethod(en, "instancePool", "buildNewInstanceSchedule"); fd != nil {
+	if fd := instloopFindMethod(en, "instancePool", "buildNewInstanceSchedule"); fd != nil {
 		ok := false
 		l := fd.Body.List
 		recv := "p"
@@ -368,9 +512,10 @@ func instloopExtra(t *tr) string {
 	}
 
 	// ---- coreutil: (*Waiter).IsFinished
-	cu := load("github.com/yandex/pandora/core/coreutil")
-	cx := &wtr{t: t, pkg: cu, recv: "w"}
-	if fd := waiterFindMethod(cu, "Waiter", "IsFinished"); fd != nil && len(fd.Recv.List[0].Names) == 1 {
+	others := instloopLoad("github.com/yandex/pandora/core/coreutil", "github.com/yandex/pandora/core/provider", "github.com/yandex/pandora/core/schedule")
+	cu := others["github.com/yandex/pandora/core/coreutil"]
+	cx := &instloopW{t: t, pkg: cu, recv: "w"}
+	if fd := instloopFindMethod(cu, "Waiter", "IsFinished"); fd != nil && len(fd.Recv.List[0].Names) == 1 {
 		cx.recv = fd.Recv.List[0].Names[0].Name
 		ok := false
 		if len(fd.Body.List) == 1 {
@@ -404,7 +549,7 @@ func instloopExtra(t *tr) string {
 	}
 
 	// ---- coreutil: (*Waiter).Wait draws exactly one token and fails without one
-	if fd := waiterFindMethod(cu, "Waiter", "Wait"); fd != nil && len(fd.Recv.List[0].Names) == 1 {
+	if fd := instloopFindMethod(cu, "Waiter", "Wait"); fd != nil && len(fd.Recv.List[0].Names) == 1 {
 		recv := fd.Recv.List[0].Names[0].Name
 		calls := 0
 		ast.Inspect(fd.Body, func(n ast.Node) bool {
@@ -447,13 +592,13 @@ func instloopExtra(t *tr) string {
 	}
 
 	// ---- provider: AmmoQueue
-	pr := load("github.com/yandex/pandora/core/provider")
-	px := &wtr{t: t, pkg: pr}
+	pr := others["github.com/yandex/pandora/core/provider"]
+	px := &instloopW{t: t, pkg: pr}
 	for _, m := range []string{"Acquire", "Release"} {
-		if fd := waiterFindMethod(pr, "AmmoQueue", m); fd != nil {
+		if fd := instloopFindMethod(pr, "AmmoQueue", m); fd != nil {
 			var ss []string
 			for _, s := range fd.Body.List {
-				ss = append(ss, ilStr(px.src(s)))
+				ss = append(ss, instloopStr(px.src(s)))
 			}
 			// `a, ok := <-p.OutQueue; return a, ok` with the local names normalised
 			if m == "Acquire" && len(fd.Body.List) == 2 {
@@ -461,13 +606,27 @@ func instloopExtra(t *tr) string {
 				rt, isRt := fd.Body.List[1].(*ast.ReturnStmt)
 				if isAs && isRt && len(as.Lhs) == 2 && len(as.Rhs) == 1 && len(rt.Results) == 2 &&
 					px.src(as.Lhs[0]) == px.src(rt.Results[0]) && px.src(as.Lhs[1]) == px.src(rt.Results[1]) && px.src(as.Lhs[0]) != px.src(as.Lhs[1]) {
-					ss = []string{ilStr("$1, $2 := " + px.src(as.Rhs[0])), ilStr("return $1, $2")}
+					ss = []string{instloopStr("$1, $2 := " + px.src(as.Rhs[0])), instloopStr("return $1, $2")}
 				}
 			}
 			b.WriteString("/-- regenerated from `core/provider/queue.go` method `(*AmmoQueue)." + m + "` -/\n")
 			b.WriteString("def queue" + m + " : List String := [" + strings.Join(ss, ", ") + "]\n\n")
 		} else {
 			t.errs = append(t.errs, "method (*AmmoQueue)."+m+" not found")
+		}
+	}
+	// ---- schedule: the shared-state operations of the leaf profile's Next / Left (core/schedule/do_at.go)
+	sp := others["github.com/yandex/pandora/core/schedule"]
+	for _, m := range []string{"Next", "Left"} {
+		if fd := instloopFindMethod(sp, "doAtSchedule", m); fd != nil {
+			var ss []string
+			for _, a := range instloopAccesses(sp, fd) {
+				ss = append(ss, instloopStr(a))
+			}
+			b.WriteString("/-- regenerated from `core/schedule/do_at.go` method `(*doAtSchedule)." + m + "`: its operations on the schedule's shared\nstate in source order (atomic operations on receiver fields, plain writes of receiver fields; function literals not entered) -/\n")
+			b.WriteString("def sched" + m + "Accesses : List String := [" + strings.Join(ss, ", ") + "]\n\n")
+		} else {
+			t.errs = append(t.errs, "method (*doAtSchedule)."+m+" not found")
 		}
 	}
 	return b.String()
